@@ -76,13 +76,45 @@ impl<T: Qcow2IoOps> Qcow2Dev<T> {
             stop
         );
 
+        // host clusters whose mapping has been cleared (and which have been
+        // punched), still to be released
+        let mut released: Vec<(u64, usize)> = Vec::new();
+        let mut res = Ok(());
         let mut guest = start;
         while guest < stop {
-            self.__discard_one_cluster(guest).await?;
+            match self.__discard_one_cluster(guest).await {
+                Ok(Some(r)) => released.push(r),
+                Ok(None) => {}
+                Err(e) => {
+                    res = Err(e);
+                    break;
+                }
+            }
             guest += cluster_size;
         }
 
-        Ok(())
+        if !released.is_empty() {
+            // The cleared mappings have to be on disk before the refcounts
+            // are dropped: a flush writes refcounts first, and a cluster
+            // whose refcount is zero is handed out again, while after a
+            // crash the old mapping would still point to it.  Until then
+            // the clusters stay allocated; if the flush fails they are
+            // leaked, which is harmless.
+            match self.flush_meta().await {
+                Ok(()) => {
+                    for (host_cluster, host_count) in released {
+                        self.free_clusters(host_cluster, host_count).await?;
+                    }
+                }
+                Err(e) => {
+                    if res.is_ok() {
+                        res = Err(e);
+                    }
+                }
+            }
+        }
+
+        res
     }
 
     /// Discard a single guest cluster at `guest_offset` (cluster-aligned).
@@ -92,7 +124,13 @@ impl<T: Qcow2IoOps> Qcow2Dev<T> {
     /// no-op. The only errors are propagated from `free_clusters` /
     /// `call_fallocate` failures (genuine IO errors on the host file
     /// or refcount metadata).
-    async fn __discard_one_cluster(&self, guest_offset: u64) -> Qcow2Result<()> {
+    ///
+    /// Returns the host cluster(s) the caller has to release once the
+    /// cleared mapping is on disk.
+    async fn __discard_one_cluster(
+        &self,
+        guest_offset: u64,
+    ) -> Qcow2Result<Option<(u64, usize)>> {
         let info = &self.info;
         debug_assert_eq!(info.in_cluster_offset(guest_offset), 0);
         let split = SplitGuestOffset(guest_offset);
@@ -100,7 +138,7 @@ impl<T: Qcow2IoOps> Qcow2Dev<T> {
         // Fast path: no L2 slice exists for this region; nothing to free.
         let l1_e = self.get_l1_entry(&split).await?;
         if l1_e.is_zero() {
-            return Ok(());
+            return Ok(None);
         }
 
         // An all-zero L2 entry means "unallocated", which reads as zero only
@@ -126,28 +164,28 @@ impl<T: Qcow2IoOps> Qcow2Dev<T> {
         // Compressed clusters share host sectors; punching could corrupt
         // a neighbor. Leave them mapped.
         if entry.is_compressed() {
-            return Ok(());
+            return Ok(None);
         }
 
         let allocation = entry.allocation(info.cluster_bits() as u32);
         let Some((host_cluster, host_count)) = allocation else {
             // Unallocated or zero-flagged-only entry — nothing to release.
-            return Ok(());
+            return Ok(None);
         };
 
         // A zero-flagged entry already reads as zero: only a preallocation
         // could be released, and without the zero flag it must stay.
         if entry.is_zero() && released_entry.is_none() {
-            return Ok(());
+            return Ok(None);
         }
 
         let Some(released_entry) = released_entry else {
             // keep the mapping, zero the data (holding the slice lock, so no
             // write to this cluster can be mapped meanwhile)
             let punch_len = host_count * info.cluster_size();
-            return self
-                .call_fallocate(host_cluster, punch_len, Qcow2OpsFlags::FALLOCATE_ZERO_RANGE)
-                .await;
+            self.call_fallocate(host_cluster, punch_len, Qcow2OpsFlags::FALLOCATE_ZERO_RANGE)
+                .await?;
+            return Ok(None);
         };
 
         // Clear the L2 entry (unallocated / zero state, reads-as-zero).
@@ -170,12 +208,9 @@ impl<T: Qcow2IoOps> Qcow2Dev<T> {
         self.call_fallocate(host_cluster, punch_len, Qcow2OpsFlags::FALLOCATE_ZERO_RANGE)
             .await?;
 
-        // Refcount-release the host cluster(s). For ordinary (non-
-        // compressed) entries this is always a single cluster, but we
-        // pass `host_count` through to mirror the existing free_clusters
-        // call sites in the COW path.
-        self.free_clusters(host_cluster, host_count).await?;
-
-        Ok(())
+        // The refcount is dropped by the caller (for ordinary, non-
+        // compressed entries this is always a single cluster; `host_count`
+        // mirrors the free_clusters call sites in the COW path).
+        Ok(Some((host_cluster, host_count)))
     }
 }
